@@ -269,8 +269,8 @@ theorem nothing_sent_when_first_block_refused :
 /-- **source fault before the first packet** (sched-7, repaired): for ANY non-empty object, parameters, window ≥ 1 and
     stream, if the very first `read()` of the stream fails, `BlockEncoder::read` returns `None`: no packet, in particular
     not the close-object packet of an empty object (forced or not) -/
-theorem read_error_before_first_packet_sends_nothing (P : Params) (st : BlockEnc.Stream) (closable f : Bool)
-    (hl : P.len ≠ 0) (hw : 1 ≤ P.window) (s0 : Enc) (hnew : Enc.new P (.faulty st 0) closable = .ok s0) :
+theorem read_error_before_first_packet_sends_nothing (P : Params) (st : BlockEnc.Stream) (closable f once : Bool)
+    (hl : P.len ≠ 0) (hw : 1 ≤ P.window) (s0 : Enc) (hnew : Enc.new P (.faulty st 0 once) closable = .ok s0) :
     (BlockEnc.read P s0 f).1 = .none := by
   unfold Enc.new at hnew
   simp only at hnew
@@ -284,13 +284,13 @@ theorem read_error_before_first_packet_sends_nothing (P : Params) (st : BlockEnc
     obtain ⟨w, hw'⟩ : ∃ w, P.window = w + 1 := ⟨P.window - 1, by omega⟩
     have key : ∀ (b : Bool) (force : Bool) (fuel : Nat),
         (readLoop P force (fuel + 1)
-          { src := .faulty st.rewind 0, off := 0, sbn := 0, aL := a1, aS := a2, nL := a3, nB := a4, blocks := [], idx := 0, readEnd := false, srcSent := 0, nbPkt := 0, stopped := b, closable := closable }).1 = .none := by
+          { src := .faulty st.rewind 0 once, off := 0, sbn := 0, aL := a1, aS := a2, nL := a3, nB := a4, blocks := [], idx := 0, readEnd := false, srcSent := 0, nbPkt := 0, stopped := b, closable := closable }).1 = .none := by
       intro b force fuel
       unfold readLoop readWindow
       rw [hw']
       unfold readWindowAux
       simp only [Bool.false_eq_true, if_false, List.length_nil, hw', Nat.zero_lt_succ, if_true]
-      have hrb : ∀ x : Enc, x.src = .faulty st.rewind 0 → x.blocks = [] → x.nbPkt = 0 →
+      have hrb : ∀ x : Enc, x.src = .faulty st.rewind 0 once → x.blocks = [] → x.nbPkt = 0 →
           (readBlock P x).readEnd = true ∧ (readBlock P x).blocks = [] ∧ (readBlock P x).nbPkt = 0 := by
         intro x h1 h2 h3
         unfold readBlock readBlockFaulty
@@ -299,7 +299,7 @@ theorem read_error_before_first_packet_sends_nothing (P : Params) (st : BlockEnc
         cases hwant : x.blockLength * P.e with
         | zero => simp [fillE, h2, h3]
         | succ m => simp [fillE, h2, h3]
-      obtain ⟨r1, r2, r3⟩ := hrb { src := .faulty st.rewind 0, off := 0, sbn := 0, aL := a1, aS := a2, nL := a3, nB := a4, blocks := [], idx := 0, readEnd := false, srcSent := 0, nbPkt := 0, stopped := b, closable := closable } rfl rfl rfl
+      obtain ⟨r1, r2, r3⟩ := hrb { src := .faulty st.rewind 0 once, off := 0, sbn := 0, aL := a1, aS := a2, nL := a3, nB := a4, blocks := [], idx := 0, readEnd := false, srcSent := 0, nbPkt := 0, stopped := b, closable := closable } rfl rfl rfl
       generalize readBlock P _ = y at r1 r2 r3
       have : readWindowAux P w y = y := by
         cases w with
@@ -318,7 +318,7 @@ theorem read_error_before_first_packet_sends_nothing (P : Params) (st : BlockEnc
     fails: block 0 complete (4 symbols), block 1 lost) -/
 theorem read_error_mid_transfer_truncates_without_close :
     (match Enc.new { codec := noCode, e := 4, b := 4, p := 0, window := 1, len := 40 }
-        (.faulty { bytes := List.range 40, pos := 0, sched := List.replicate 64 5 } 5) true with
+        (.faulty { bytes := List.range 40, pos := 0, sched := List.replicate 64 5 } 5 false) true with
      | .ok s0 => (runAll { codec := noCode, e := 4, b := 4, p := 0, window := 1, len := 40 } 32 s0).map
                    (fun p => (p.sbn, p.esi, p.closeObject))
      | .error _ => []) = [(0, 0, false), (0, 1, false), (0, 2, false), (0, 3, false)] := by decide
@@ -444,10 +444,10 @@ theorem accepts_discharged (hS : Setup P c aL aS nL n) :
 
 /-- **admission ⇒ `Accepts`** (the driver's admission IS agent toi's `Admission.accepts`, the reference model tied to the real
     `add_object` by engine `toi`): an object ADMITTED by `FileDesc::new` (`Admission.fileDescNew … = ok (ok _)`) whose OTI is
-    Reed-Solomon (FEC ID 5 or 129), No-Code or RaptorQ, sent with the parameters of that OTI and the matching codec, has every
-    block accepted by the codec - `Accepts` is discharged by admission (via AdmissionLink `admitted_block_limits`).  For
-    Raptor (FEC ID 1) admission bounds `a_large ≤ 8192` but does NOT exclude blocks of 2 or 3 symbols (finding raptor-k<4):
-    that hypothesis stays explicit. -/
+    Reed-Solomon (FEC ID 5 or 129), No-Code, RaptorQ or Raptor, sent with the parameters of that OTI and the matching codec, has every
+    block accepted by the codec - `Accepts` is discharged by admission (via AdmissionLink `admitted_block_limits`); likewise for
+    Raptor (FEC ID 1) since /repo 42b2a1c (`admitted_raptor_blocks`: a partition using a block of 2 or 3 symbols is refused;
+    `a_large ≤ 8192`). -/
 theorem admitted_accepts (hS : Setup P c aL aS nL n) (dflt o o' : Flute.Admission.Oti)
     (hadm : Flute.Admission.fileDescNew dflt (some o) P.len = .ok (.ok o'))
     (hb : P.b = o.maxSbl) (he : P.e = o.esl) (hp : P.p = o.parity)
@@ -455,8 +455,8 @@ theorem admitted_accepts (hS : Setup P c aL aS nL n) (dflt o o' : Flute.Admissio
     (∀ rep, (o.fec = .rs28 ∨ o.fec = .rs28us) → P.codec = reedSolomon rep → Accepts P c aL aS nL n) ∧
     (o.fec = .noCode → P.codec = noCode → Accepts P c aL aS nL n) ∧
     (∀ rep, o.fec = .raptorq → P.codec = raptorQ rep → Accepts P c aL aS nL n) ∧
-    (∀ rep, o.fec = .raptor → P.codec = raptorLegacy rep → (∀ k, k < n → A aL aS nL k ≠ 2 ∧ A aL aS nL k ≠ 3) →
-       Accepts P c aL aS nL n ∧ aL ≤ 8192) := by
+    (∀ rep, o.fec = .raptor → P.codec = raptorLegacy rep →
+       Accepts P c aL aS nL n ∧ aL ≤ 8192 ∧ ∀ k, k < n → A aL aS nL k ≠ 2 ∧ A aL aS nL k ≠ 3) := by
   have hq' : Partition.blockPartitioning (Flute.Props.C01.Admission.chosen dflt (some o)).maxSbl P.len
       (Flute.Props.C01.Admission.chosen dflt (some o)).esl = .ok (aL, aS, nL, n) := by
     show Partition.blockPartitioning o.maxSbl P.len o.esl = _
@@ -469,9 +469,18 @@ theorem admitted_accepts (hS : Setup P c aL aS nL n) (dflt o o' : Flute.Admissio
     exact rs_accepts rep hS hc (by rw [hp]; exact q1) (by rw [hp]; omega)
   · intro _ hc; exact accepts_of_total hS (by rw [hc]; intro _ _ _; rfl)
   · intro rep _ hc; exact accepts_of_total hS (by rw [hc]; intro _ _ _; rfl)
-  · intro rep hf hc hk
+  · intro rep hf hc
     obtain ⟨q1, _⟩ := l2 (Or.inr hf)
-    refine ⟨raptor_accepts rep hS hc hk, ?_⟩
+    -- since /repo 42b2a1c admission refuses a Raptor partition that uses a block of 2 or 3 symbols
+    obtain ⟨r1, r2⟩ := Flute.Props.C01.Admission.admitted_raptor_blocks dflt (some o) P.len o' hadm hf _ hq'
+    simp only at r1 r2
+    have hk : ∀ k, k < n → A aL aS nL k ≠ 2 ∧ A aL aS nL k ≠ 3 := by
+      intro k hk
+      unfold A
+      split
+      · exact r1 (by omega)
+      · exact r2 (by omega)
+    refine ⟨raptor_accepts rep hS hc hk, ?_, hk⟩
     have : Flute.Admission.maxBlockSymbols (Flute.Props.C01.Admission.chosen dflt (some o)).fec = 8192 := by
       show Flute.Admission.maxBlockSymbols o.fec = 8192
       rw [hf]; rfl
